@@ -88,6 +88,11 @@ Theorem C10_library_donations :
   Gen_c10_optimizers.optax_apply_donates = [].
 Proof. exact library_donations. Qed.
 
+(* T: the sources under apply() use no process- or time-dependent value (hash, id, time, uuid, os.environ, unseeded
+   random): a round is a function of (state, clients) ACROSS interpreter processes too *)
+Theorem C10_no_process_dependent_values : process_dependent_uses_total = 0.
+Proof. exact no_process_dependent_values. Qed.
+
 (* the new state, the diagnostics and the aggregate are NEW objects: none of them is an object of the arguments *)
 Theorem C10_new_objects_are_fresh : forall a W K rd s st cl σ',
   exec (script_of a W K rd) (mkSt s [(st_r, st); (cl_r, cl)]) = Some σ' ->
@@ -146,3 +151,4 @@ Print Assumptions C10_library_donations.
 Print Assumptions C10_next_key_is_source_depth.
 Print Assumptions C10_new_objects_are_fresh.
 Print Assumptions C10_closedb_closed.
+Print Assumptions C10_no_process_dependent_values.
